@@ -331,6 +331,9 @@ func checkC05(ck *Check) {
 	// takes calcScaleUpDelta's result, raised — never replaced — by the two documented overrides
 	// (the band table and the overrides of C06.R1 / R2)
 	ck.shareRules(checkC06, "C05.R11", "C06.R1", "C06.R2")
+	// R12 "unless the maximum is reached": under auto-discovery the maximum is the cloud group's own,
+	// re-read every scan (the discovery stores of C03.R5)
+	ck.autoDiscovery("C05.R12")
 }
 
 // retCase: one way a function returns — the path condition (helpers' conditions conjoined) and the
